@@ -18,7 +18,7 @@ func init() {
 		LevelText:   "Structural clauses decided: in non-test, non-bench module code only telemetry.sendTelemetry makes HTTP requests and only to the constant endpoint; it is reached only through Start's go statement behind the Enabled test, and the collector is created/started only behind Config.Telemetry.Enabled; the payload's transitive JSON key set equals the documented one and every value derives from runtime.*, the instance id, the version or the clock; the telemetry package cannot import server state; each route to 'disabled' (file, programmatic, environment) is wired. What dependencies do on the network is not decided.",
 		LevelNote:   "Trusted: go/types, go/ssa, encoding/json's struct-tag semantics, viper's environment binding rules (prefix + key replacer).",
 		DesignRef:   "DESIGN.md §4 C19",
-		Explanation: "R19.1 egress ownership, R19.2 gating, R19.3 payload whitelist and provenance (instance id random or read back from the id file; no host / user / environment identity source in the package), R19.4 layering, R19.5 routes to disabled (file key agreement = R15.6, programmatic, environment). R19.5 also requires that the switch is written only where defaults are built and the configuration is read; R15.8 (shared) telemetry.* keys reach their Config fields. NOT decided: network behaviour of dependencies (NATS, Raft, gRPC are the product).",
+		Explanation: "R19.5 also: environment variables are bound per known key (no AutomaticEnv), so a variable named after a section cannot hide telemetry.enabled from the file (F74). R19.1 egress ownership, R19.2 gating, R19.3 payload whitelist and provenance (instance id random or read back from the id file; no host / user / environment identity source in the package), R19.4 layering, R19.5 routes to disabled (file key agreement = R15.6, programmatic, environment). R19.5 also requires that the switch is written only where defaults are built and the configuration is read; R15.8 (shared) telemetry.* keys reach their Config fields. NOT decided: network behaviour of dependencies (NATS, Raft, gRPC are the product).",
 	})
 }
 
@@ -316,12 +316,32 @@ func runC19(c *eng.Ctx) {
 		ok := len(eng.CallsIn(fn, "server.parseTelemetryConfig")) == 1
 		c.Check(ok, "file route: telemetry section is parsed", p.Pos(fn.Pos()), "NewConfig calls parseTelemetryConfig", "NewConfig does not parse the telemetry section")
 		// (environment) the environment binding must be in effect on every return that yields a config, and keys must map to settable names
-		envCalls := eng.CallsIn(fn, viperPkg+".Viper.AutomaticEnv")
+		// The binding is one BindEnv per known setting (a range over configKeys): viper's AutomaticEnv also makes a variable
+		// named after a SECTION (LIFTBRIDGE_TELEMETRY) hide every key of that section in the config file — IsSet answers
+		// false for telemetry.enabled, `enabled: false` is dropped and the default (enabled) stays.
+		auto := eng.CallsIn(fn, viperPkg+".Viper.AutomaticEnv")
+		c.Check(len(auto) == 0, "environment route: a section-named variable does not hide the file's settings", p.Pos(fn.Pos()), "no AutomaticEnv: variables are bound per known setting", "NewConfig enables viper's AutomaticEnv: a non-empty LIFTBRIDGE_TELEMETRY (any variable named after a parent of a nested key) shadows telemetry.enabled from the config file, so `telemetry.enabled: false` is dropped without a word and telemetry stays on")
+		var binding ssa.Instruction
+		for _, ml := range eng.MapLoops(fn) {
+			if !eng.Global("server.configKeys")(ml.Range.X) {
+				continue
+			}
+			for blk := range ml.Body {
+				for _, in := range blk.Instrs {
+					if call, isCall := in.(*ssa.Call); isCall && eng.CalleeRef(&call.Call) == viperPkg+".Viper.BindEnv" {
+						binding = ml.Range
+					}
+				}
+			}
+		}
+		if binding == nil && len(auto) > 0 {
+			binding = auto[0].(ssa.Instruction)
+		}
 		repl := eng.CallsIn(fn, viperPkg+".Viper.SetEnvKeyReplacer")
 		for _, r := range eng.Returns(fn) {
 			if len(r.Results) == 2 && eng.NilConst(r.Results[1]) {
-				g, w := eng.PrecededBy(fn, r, func(x ssa.Instruction) bool { return len(envCalls) > 0 && x == envCalls[0].(ssa.Instruction) })
-				c.Check(g && len(envCalls) > 0, "environment route: binding in effect for every returned config", c.Pos(r), "every successful return passes AutomaticEnv()", "NewConfig can return a config without having bound the environment (path "+w.String()+"): LIFTBRIDGE_* variables, including the documented switch for telemetry, are ignored when no config file is given")
+				g, w := eng.PrecededBy(fn, r, func(x ssa.Instruction) bool { return binding != nil && x == binding })
+				c.Check(g && binding != nil, "environment route: binding in effect for every returned config", c.Pos(r), "every successful return passes the binding of the LIFTBRIDGE_* variables (BindEnv for every key of configKeys)", "NewConfig can return a config without having bound the environment (path "+w.String()+"): LIFTBRIDGE_* variables, including the documented switch for telemetry, are ignored when no config file is given")
 			}
 		}
 		c.Check(len(repl) > 0, "environment route: dotted keys map to settable variable names", p.Pos(fn.Pos()), "SetEnvKeyReplacer maps '.' to '_'", "no SetEnvKeyReplacer: viper derives LIFTBRIDGE_TELEMETRY.ENABLED from the key telemetry.enabled, which is not a valid shell variable name, so the documented LIFTBRIDGE_TELEMETRY_ENABLED=false has no effect")
